@@ -24,7 +24,7 @@ def main(tier):
     broken = ck.stage_a(errs, ["GenNum.v"], "TieC16.v", "C16.v", tie_text=ties.tie_text("C16"))
     gen_ok = not any(o[0].startswith("compile:") for o in broken)
     rng = ck.rng
-    shapes = [([4, 6], 0), ([4, 6], -1), ([6, 8], 0), ([3, 2, 4], 0), ([2, 3, 4], -1), ([2, 16], 0)]
+    shapes = [([4, 6], 0), ([4, 6], -1), ([6, 8], 0), ([3, 2, 4], 0), ([2, 3, 4], -1), ([2, 16], 0), ([1, 8], 0), ([8, 1], -1)]
     ncase = 120 if tier == "quick" else 1200
     calls = []
     for i in range(ncase):
